@@ -40,12 +40,25 @@ func init() {
 	register(&Scenario{Prop: "C11", Name: "audit", Run: runC11})
 }
 
-func genPayload(tp *Tape, depth int, canary func(string) string, exempt string) map[string]any {
+// genPayload builds request data: nested maps, lists, mixed scalars, empty
+// values, canaries at arbitrary depth. The keys in `exempt` (configured on
+// the mount as audit_non_hmac_*_keys) are sprinkled at every depth - also in
+// maps that are list elements, followed by secret siblings - always with a
+// non-secret value: exemption is a property of the nearest enclosing key and
+// must not spill over to anything else.
+func genPayload(tp *Tape, depth int, canary func(string) string, exempt ...string) map[string]any {
 	out := map[string]any{}
 	n := 1 + tp.Pick(4)
+	exemptMap := func() map[string]any {
+		m := map[string]any{}
+		if len(exempt) > 0 {
+			m[exempt[tp.Pick(len(exempt))]] = "EXEMPT-visible-value"
+		}
+		return m
+	}
 	for i := 0; i < n; i++ {
 		k := fmt.Sprintf("f%d", i)
-		switch tp.Pick(8) {
+		switch tp.Pick(10) {
 		case 0, 1:
 			out[k] = canary("leaf")
 		case 2:
@@ -58,7 +71,7 @@ func genPayload(tp *Tape, depth int, canary func(string) string, exempt string) 
 			l := []any{}
 			for j := 0; j < 1+tp.Pick(3); j++ {
 				if depth > 0 && tp.Pick(3) == 0 {
-					l = append(l, genPayload(tp, depth-1, canary, ""))
+					l = append(l, genPayload(tp, depth-1, canary, exempt...))
 				} else {
 					l = append(l, canary("list"))
 				}
@@ -66,16 +79,38 @@ func genPayload(tp *Tape, depth int, canary func(string) string, exempt string) 
 			out[k] = l
 		case 6:
 			if depth > 0 {
-				out[k] = genPayload(tp, depth-1, canary, "")
+				out[k] = genPayload(tp, depth-1, canary, exempt...)
 			} else {
 				out[k] = canary("leaf")
 			}
 		case 7:
 			out[k] = []string{canary("strs"), canary("strs")}
+		case 8: // a list whose first element is a map holding only an exempt key
+			l := []any{exemptMap()}
+			for j := 0; j < 1+tp.Pick(3); j++ {
+				if tp.Pick(3) == 0 {
+					l = append(l, []any{canary("sub")})
+				} else {
+					l = append(l, canary("sibling"))
+				}
+			}
+			out[k] = l
+		case 9: // an exempt key holding a map / list: what is below a further key is not exempt
+			if len(exempt) > 0 {
+				ek := exempt[tp.Pick(len(exempt))]
+				if tp.Pick(2) == 0 {
+					out[ek] = map[string]any{"inner": canary("below-exempt")}
+				} else {
+					out[ek] = []any{"EXEMPT-visible-item", map[string]any{"inner": canary("below-exempt")}}
+				}
+			}
 		}
 	}
-	if exempt != "" {
-		out[exempt] = "EXEMPT-visible-value"
+	if len(exempt) > 0 && tp.Pick(2) == 0 {
+		ek := exempt[tp.Pick(len(exempt))]
+		if _, set := out[ek]; !set {
+			out[ek] = "EXEMPT-visible-value"
+		}
 	}
 	return out
 }
@@ -128,7 +163,7 @@ func runC11(rc *RunCtx) {
 	mkReq := func(kind string) Req {
 		switch kind {
 		case "echo":
-			return Req{Op: logical.UpdateOperation, Path: "rec/echo", Token: tok, Data: genPayload(tp, 2, canary, "plainreq")}
+			return Req{Op: logical.UpdateOperation, Path: "rec/echo", Token: tok, Data: genPayload(tp, 2, canary, "plainreq", "plainresp")}
 		case "write":
 			return Req{Op: logical.UpdateOperation, Path: "rec/data/w", Token: tok, Data: map[string]any{"value": canary("value")}}
 		case "read":
